@@ -463,4 +463,306 @@ theorem varMeta_of_zero (cfg : DiffCfg) (na nb : Nat) (v w : LVar) (hv : AttsWF 
     exact ⟨by simpa using h1, varDims_eq_of_zero cfg na nb v.dims w.dims (by omega) hag h2, by simpa using h3,
       atts_eq_of_zero cfg v.atts w.atts hv hw hb h4⟩
 
+/-! ### whole files -/
+
+/-- files as every reader produces them: unique names in every name space, attribute values of the stated length -/
+structure LWF (a : LFile) : Prop where
+  dimNames : UniqueNames (fun x : Dim => x.name) a.dims
+  gatts    : AttsWF a.gatts
+  varNames : UniqueNames (fun x : LVar => x.name) a.vars
+  vatts    : ∀ v ∈ a.vars, AttsWF v.atts
+
+/-- nothing of type NC_BYTE in the first file (what ncmpidiff never compares) -/
+structure NoByte (cfg : DiffCfg) (a : LFile) : Prop where
+  gatts : NoByteAtts cfg a.gatts
+  vars  : ∀ v ∈ a.vars, (cfg.skipByte = true → v.xtype ≠ .byte) ∧ NoByteAtts cfg v.atts
+
+/-- the tool's view of dimension lengths separates what it must separate: two same-named dimensions that look
+    equally long to the tool have the same stored length.  Always true for cdfdiff (it compares the stored
+    lengths); for ncmpidiff (record dimension seen as numrecs) it says that a record dimension is not compared
+    with a fixed dimension of length numrecs. -/
+structure LenAgree (cfg : DiffCfg) (a b : LFile) : Prop where
+  dims  : ∀ x ∈ a.dims, ∀ y ∈ b.dims, x.name = y.name →
+            dimLen cfg a.numrecs x.size = dimLen cfg b.numrecs y.size → x.size = y.size
+  vdims : ∀ v ∈ a.vars, ∀ w ∈ b.vars, v.name = w.name → ∀ p ∈ v.dims.zip w.dims, p.1.name = p.2.name →
+            dimLen cfg a.numrecs p.1.size = dimLen cfg b.numrecs p.2.size → p.1.size = p.2.size
+
+theorem lenAgree_of_stored (cfg : DiffCfg) (a b : LFile) (h : cfg.recLenIsNumrecs = false) : LenAgree cfg a b := by
+  have hd : ∀ n s, dimLen cfg n s = s := by intro n s; simp [dimLen, h]
+  exact ⟨fun x _ y _ _ he => by rwa [hd, hd] at he, fun v _ w _ _ p _ _ he => by rwa [hd, hd] at he⟩
+
+theorem attsCrash_of_len (cfg : DiffCfg) (A B : List Att) (h : A.length = B.length) : attsCrash cfg A B = false := by
+  unfold attsCrash
+  by_cases h0 : B.length = 0
+  · have : A.length = 0 := by omega
+    simp [h0, this]
+  · have : ¬ A.length = 0 := by omega
+    simp [h0, this]
+
+theorem recsSame_iff (v w : LVar) : ∀ n, recsSame v w n = true ↔ ∀ r, r < n → v.data r = w.data r := by
+  intro n
+  induction n with
+  | zero => simp [recsSame]
+  | succ n ih =>
+    simp only [recsSame, Bool.and_eq_true, beq_iff_eq, ih]
+    constructor
+    · intro ⟨h1, h2⟩ r hr
+      by_cases hrn : r = n
+      · subst hrn; exact h2
+      · exact h1 r (by omega)
+    · intro h
+      exact ⟨fun r hr => h r (by omega), h n (by omega)⟩
+
+theorem varsDiff_eq (cfg : DiffCfg) (a b : LFile) (hA : UniqueNames (fun x : LVar => x.name) a.vars)
+    (hB : UniqueNames (fun x : LVar => x.name) b.vars) (hpos : a.vars.length > 0 ∧ b.vars.length > 0) :
+    varsDiff cfg a b =
+      (sumNat (a.vars.map (fun v => optCase (findBy (fun x : LVar => x.name) b.vars v.name) 1
+                (fun w => varMetaDiff cfg a.numrecs b.numrecs v w))) +
+       sumNat (b.vars.map (fun w => optCase (findBy (fun x : LVar => x.name) a.vars w.name) 1 (fun _ => 0))),
+       sumNat (a.vars.map (fun v => optCase (findBy (fun x : LVar => x.name) b.vars v.name) 1 (fun _ => 0))) +
+       sumNat (b.vars.map (fun w => optCase (findBy (fun x : LVar => x.name) a.vars w.name) 1 (fun _ => 0)))) := by
+  unfold varsDiff
+  rw [if_pos hpos]
+  rw [imap_eq_map _ (fun v => optCase (findBy (fun x : LVar => x.name) b.vars v.name) 1
+          (fun w => varMetaDiff cfg a.numrecs b.numrecs v w)) a.vars
+        (fun i x _ => by rw [lookup_eq_find cfg _ b.vars i x.name hB]; rfl) 0,
+      imap_eq_map _ (fun w => optCase (findBy (fun x : LVar => x.name) a.vars w.name) 1 (fun _ => 0)) b.vars
+        (fun i y _ => by rw [lookup_eq_find cfg _ a.vars i y.name hA]; rfl) 0,
+      imap_eq_map _ (fun v => optCase (findBy (fun x : LVar => x.name) b.vars v.name) 1 (fun _ => 0)) a.vars
+        (fun i x _ => by rw [lookup_eq_find cfg _ b.vars i x.name hB]; rfl) 0]
+
+theorem metaEq_of_eq {n : Nat} {v w : LVar} (h : LVarEq n v w) : LVarMetaEq v w := ⟨h.xtype, h.dims, h.natts, h.atts⟩
+
+/-- D1: same format and same logical content ⇒ the tool reports no difference (either tool, any layout) -/
+theorem toolDiff_of_logicalEq (cfg : DiffCfg) (a b : LFile) (wa : LWF a) (wb : LWF b) (E : LogicalEq a b) :
+    toolDiff cfg a b = .counts 0 0 := by
+  have hfa : ∀ v ∈ a.vars, findVar a.vars v.name = some v := fun v hv => findBy_self wa.varNames hv
+  -- no crash
+  have c1 : attsCrash cfg a.gatts b.gatts = false := attsCrash_of_len cfg _ _ E.ngatts
+  have c2 : varsCrash cfg a b = false := by
+    unfold varsCrash
+    rw [imap_eq_map _ (fun _ => false) a.vars (fun i v hv => by
+      rw [lookup_eq_find cfg _ b.vars i v.name wb.varNames]
+      cases hf : b.vars.find? (fun x => x.name == v.name) with
+      | none => rfl
+      | some w =>
+        rw [optCase_some]
+        exact attsCrash_of_len cfg _ _ (E.vars v.name v w (hfa v hv) hf).natts) 0]
+    simp
+  unfold toolDiff
+  rw [c1, c2]
+  simp only [Bool.or_self, Bool.false_eq_true, ↓reduceIte]
+  -- header
+  have g1 : b2n (decide (a.fmt ≠ b.fmt)) = 0 := by rw [b2n_eq_zero]; simp [E.fmt]
+  have g2 : b2n (decide (a.dims.length ≠ b.dims.length)) = 0 := by rw [b2n_eq_zero]; simp [E.ndims]
+  have g3 : b2n (decide (a.vars.length ≠ b.vars.length)) = 0 := by rw [b2n_eq_zero]; simp [E.nvars]
+  have g4 : b2n (decide (a.gatts.length ≠ b.gatts.length)) = 0 := by rw [b2n_eq_zero]; simp [E.ngatts]
+  have g5 := atts_zero_of_eq cfg a.gatts b.gatts wa.gatts.1 wb.gatts.1 E.gatts
+  have g6 := dims_zero_of_eq cfg a b wa.dimNames wb.dimNames E.numrecs E.dims
+  have g7 : varsDiff cfg a b = (0, 0) := by
+    by_cases hpos : a.vars.length > 0 ∧ b.vars.length > 0
+    · rw [varsDiff_eq cfg a b wa.varNames wb.varNames hpos]
+      have k1 := keyed_zero_of_rel (fun x : LVar => x.name) a.vars b.vars
+        (fun v w => varMetaDiff cfg a.numrecs b.numrecs v w) LVarMetaEq wa.varNames wb.varNames
+        (fun v hv w hw _ hr => by
+          rw [← E.numrecs]
+          exact varMeta_zero_of cfg a.numrecs v w (wa.vatts v hv).1 (wb.vatts w hw).1 hr)
+        E.varsDef (fun nm v w hv hw => metaEq_of_eq (E.vars nm v w hv hw))
+      have k2 := keyed_zero_of_rel (fun x : LVar => x.name) a.vars b.vars
+        (fun _ _ => 0) (fun _ _ => True) wa.varNames wb.varNames (fun _ _ _ _ _ _ => rfl)
+        E.varsDef (fun _ _ _ _ _ => trivial)
+      rw [k1, k2]
+    · unfold varsDiff; rw [if_neg hpos]
+  -- data
+  have g8 : sumNat (a.vars.map (fun v => varDataDiff cfg a b v.name)) = 0 := by
+    rw [sumNat_eq_zero]
+    intro t ht
+    obtain ⟨v, hv, rfl⟩ := List.mem_map.mp ht
+    unfold varDataDiff
+    have h1 : a.vars.find? (fun x => x.name == v.name) = some v := hfa v hv
+    rw [h1]
+    cases hf : b.vars.find? (fun x => x.name == v.name) with
+    | none => rfl
+    | some w =>
+      have e := E.vars v.name v w h1 hf
+      simp only []
+      have t1 : ¬ v.xtype ≠ w.xtype := by simp [e.xtype]
+      have t2 : ¬ v.dims.length ≠ w.dims.length := by simp [e.dims]
+      have t3 : ¬ (v.dims.map (fun d => dimLen cfg a.numrecs d.size)) ≠ (w.dims.map (fun d => dimLen cfg b.numrecs d.size)) := by
+        simp [e.dims, E.numrecs]
+      rw [if_neg t1, if_neg t2, if_neg t3]
+      split
+      · rfl
+      · rw [b2n_eq_zero]
+        have := (recsSame_iff v w (if v.isRec then a.numrecs else 1)).mpr e.data
+        simp [this]
+  rw [g7]
+  simp only [g1, g2, g3, g4, g5, g6, g8, Nat.add_zero]
+
+theorem nil_of_length_zero {α : Type} {l : List α} (h : ¬ l.length > 0) : l = [] := by
+  cases l with
+  | nil => rfl
+  | cons _ _ => simp at h
+
+/-- D2: the tool reports no difference ⇒ same format and same logical content, provided the record counts
+    agree (cdfdiff never looks at the second file's), nothing in the first file is of a type the tool skips
+    (ncmpidiff: NC_BYTE) and the tool's view of dimension lengths is faithful (`LenAgree`) -/
+theorem logicalEq_of_toolDiff (cfg : DiffCfg) (a b : LFile) (wa : LWF a) (wb : LWF b) (nb : NoByte cfg a)
+    (ag : LenAgree cfg a b) (hn : a.numrecs = b.numrecs) (h : toolDiff cfg a b = .counts 0 0) : LogicalEq a b := by
+  unfold toolDiff at h
+  split at h
+  · cases h
+  · simp only [DiffOut.counts.injEq] at h
+    obtain ⟨hh, hv⟩ := h
+    have g1 : b2n (decide (a.fmt ≠ b.fmt)) = 0 := by omega
+    have g2 : b2n (decide (a.dims.length ≠ b.dims.length)) = 0 := by omega
+    have g3 : b2n (decide (a.vars.length ≠ b.vars.length)) = 0 := by omega
+    have g4 : b2n (decide (a.gatts.length ≠ b.gatts.length)) = 0 := by omega
+    have g5 : attsDiff cfg a.gatts b.gatts = 0 := by omega
+    have g6 : dimsDiff cfg a b = 0 := by omega
+    have g7 : (varsDiff cfg a b).1 = 0 := by omega
+    have g8 : sumNat (a.vars.map (fun v => varDataDiff cfg a b v.name)) = 0 := by omega
+    rw [b2n_eq_zero] at g1 g2 g3 g4
+    have efmt : a.fmt = b.fmt := by simpa using g1
+    have endims : a.dims.length = b.dims.length := by simpa using g2
+    have envars : a.vars.length = b.vars.length := by simpa using g3
+    have engatts : a.gatts.length = b.gatts.length := by simpa using g4
+    -- variables: metadata
+    have hvars : (∀ nm, (findVar a.vars nm).isSome = (findVar b.vars nm).isSome) ∧
+        ∀ nm v w, findVar a.vars nm = some v → findVar b.vars nm = some w → LVarMetaEq v w := by
+      by_cases hpos : a.vars.length > 0 ∧ b.vars.length > 0
+      · rw [varsDiff_eq cfg a b wa.varNames wb.varNames hpos] at g7
+        simp only [] at g7
+        exact keyed_rel_of_zero (fun x : LVar => x.name) a.vars b.vars
+          (fun v w => varMetaDiff cfg a.numrecs b.numrecs v w) LVarMetaEq
+          (fun v hv w hw hnm hd => varMeta_of_zero cfg a.numrecs b.numrecs v w (wa.vatts v hv) (wb.vatts w hw)
+            (nb.vars v hv).2 (ag.vdims v hv w hw hnm) hd) g7
+      · have ha : a.vars = [] := by
+          by_cases h0 : a.vars.length > 0
+          · have : ¬ b.vars.length > 0 := fun hb => hpos ⟨h0, hb⟩
+            omega
+          · exact nil_of_length_zero h0
+        have hb : b.vars = [] := nil_of_length_zero (by rw [← envars, ha]; simp)
+        rw [ha, hb]
+        exact ⟨fun _ => rfl, fun nm v w hv _ => by cases hv⟩
+    refine ⟨efmt, hn, endims, dims_eq_of_zero cfg a b wa.dimNames wb.dimNames endims ag.dims g6, engatts,
+      atts_eq_of_zero cfg a.gatts b.gatts wa.gatts wb.gatts nb.gatts g5, envars, hvars.1, ?_⟩
+    intro nm v w hfv hfw
+    have me := hvars.2 nm v w hfv hfw
+    refine ⟨me.xtype, me.dims, me.natts, me.atts, ?_⟩
+    -- data
+    obtain ⟨hvm, hvn⟩ := findBy_some (nameOf := fun x : LVar => x.name) hfv
+    rw [sumNat_eq_zero] at g8
+    have t := g8 _ (List.mem_map.mpr ⟨v, hvm, rfl⟩)
+    unfold varDataDiff at t
+    have hvn' : v.name = nm := hvn
+    rw [hvn'] at t
+    have h1 : a.vars.find? (fun x => x.name == nm) = some v := hfv
+    have h2 : b.vars.find? (fun x => x.name == nm) = some w := hfw
+    rw [h1, h2] at t
+    simp only [] at t
+    have t1 : ¬ v.xtype ≠ w.xtype := by simp [me.xtype]
+    have t2 : ¬ v.dims.length ≠ w.dims.length := by simp [me.dims]
+    have t3 : ¬ (v.dims.map (fun d => dimLen cfg a.numrecs d.size)) ≠ (w.dims.map (fun d => dimLen cfg b.numrecs d.size)) := by
+      simp [me.dims, hn]
+    have t4 : ¬ (cfg.skipByte = true ∧ v.xtype = .byte) := fun ⟨x, y⟩ => (nb.vars v hvm).1 x y
+    rw [if_neg t1, if_neg t2, if_neg t3, if_neg t4, b2n_eq_zero] at t
+    exact (recsSame_iff v w _).mp (by simpa using t)
+
+theorem same_iff (o : DiffOut) : o.same = true ↔ o = .counts 0 0 := by
+  cases o with
+  | crash => simp [DiffOut.same]
+  | counts h v =>
+    cases h with
+    | zero => cases v with
+      | zero => simp [DiffOut.same]
+      | succ _ => simp [DiffOut.same]
+    | succ _ => simp [DiffOut.same]
+
+theorem LogicalEq.refl (a : LFile) : LogicalEq a a :=
+  ⟨rfl, rfl, rfl, fun _ => rfl, rfl, fun _ => rfl, rfl, fun _ => rfl,
+   fun nm v w hv hw => by rw [hv] at hw; cases hw; exact ⟨rfl, rfl, rfl, fun _ => rfl, fun _ _ => rfl⟩⟩
+
+theorem LVarEq.symm {n : Nat} {v w : LVar} (hr : v.isRec = w.isRec) (h : LVarEq n v w) : LVarEq n w v :=
+  ⟨h.xtype.symm, h.dims.symm, h.natts.symm, fun nm => (h.atts nm).symm, fun r hlt => (h.data r (by rw [hr]; exact hlt)).symm⟩
+
+/-- record-ness of a variable is determined by its dimensions -/
+def RecByDims (a : LFile) : Prop :=
+  ∀ v ∈ a.vars, v.isRec = (match v.dims with | d :: _ => d.size == 0 | [] => false)
+
+theorem LogicalEq.symm {a b : LFile} (ra : RecByDims a) (rb : RecByDims b) (h : LogicalEq a b) : LogicalEq b a :=
+  ⟨h.fmt.symm, h.numrecs.symm, h.ndims.symm, fun nm => (h.dims nm).symm, h.ngatts.symm, fun nm => (h.gatts nm).symm,
+   h.nvars.symm, fun nm => (h.varsDef nm).symm,
+   fun nm w v hw hv => by
+     have e := h.vars nm v w hv hw
+     have hr : v.isRec = w.isRec := by
+       rw [ra v (findBy_some (nameOf := fun x : LVar => x.name) hv).1, rb w (findBy_some (nameOf := fun x : LVar => x.name) hw).1, e.dims]
+     rw [← h.numrecs]
+     exact LVarEq.symm hr e⟩
+
+theorem LogicalEq.trans {a b c : LFile} (rb : RecByDims b) (ra : RecByDims a) (h1 : LogicalEq a b) (h2 : LogicalEq b c) :
+    LogicalEq a c :=
+  ⟨h1.fmt.trans h2.fmt, h1.numrecs.trans h2.numrecs, h1.ndims.trans h2.ndims, fun nm => (h1.dims nm).trans (h2.dims nm),
+   h1.ngatts.trans h2.ngatts, fun nm => (h1.gatts nm).trans (h2.gatts nm), h1.nvars.trans h2.nvars,
+   fun nm => (h1.varsDef nm).trans (h2.varsDef nm),
+   fun nm v x hv hx => by
+     have hs := h1.varsDef nm
+     rw [hv] at hs
+     cases hw : findVar b.vars nm with
+     | none => rw [hw] at hs; cases hs
+     | some w =>
+       have e1 := h1.vars nm v w hv hw
+       have e2 := h2.vars nm w x hw hx
+       have hr : v.isRec = w.isRec := by
+         rw [ra v (findBy_some (nameOf := fun x : LVar => x.name) hv).1, rb w (findBy_some (nameOf := fun x : LVar => x.name) hw).1, e1.dims]
+       exact ⟨e1.xtype.trans e2.xtype, e1.dims.trans e2.dims, e1.natts.trans e2.natts,
+         fun n => (e1.atts n).trans (e2.atts n),
+         fun r hlt => (e1.data r hlt).trans (e2.data r (by rw [← hr, ← h1.numrecs]; exact hlt))⟩⟩
+
+/-! ### the view `absFile` and the layout -/
+
+theorem absFile_recByDims (h : Hdr) (rs : Nat) (f : Bytes) : RecByDims (absFile h rs f) := by
+  intro v hv
+  simp only [absFile, List.mem_map] at hv
+  obtain ⟨x, _, rfl⟩ := hv
+  rfl
+
+theorem rdAt_shift (pre gap rest : Bytes) (off n : Nat) (h : pre.length ≤ off) :
+    rdAt (pre ++ gap ++ rest) (off + gap.length) n = rdAt (pre ++ rest) off n := by
+  unfold rdAt
+  congr 1
+  rw [List.append_assoc, List.drop_append, List.drop_append, List.drop_append]
+  have h1 : List.drop (off + gap.length) pre = [] := List.drop_eq_nil_of_le (by omega)
+  have h2 : List.drop (off + gap.length - pre.length) gap = [] := List.drop_eq_nil_of_le (by omega)
+  have h3 : List.drop off pre = [] := List.drop_eq_nil_of_le h
+  rw [h1, h2, h3]
+  simp only [List.nil_append]
+  congr 1
+  omega
+
+theorem rdAt_shift' (pre gap rest : Bytes) (b c n : Nat) (h : pre.length ≤ b) :
+    rdAt (pre ++ gap ++ rest) (b + gap.length + c) n = rdAt (pre ++ rest) (b + c) n := by
+  have : b + gap.length + c = (b + c) + gap.length := by omega
+  rw [this]
+  exact rdAt_shift pre gap rest _ _ (by omega)
+
+/-- every `begin` moved by `k` bytes -/
+def shiftBegins (k : Nat) (h : Hdr) : Hdr :=
+  { h with vars := h.vars.map (fun v => { v with begin := v.begin + k }) }
+
+/-- moving the whole data section by `gap.length` bytes (more header free space, another alignment of the first
+    variable) leaves the view of the diff tools unchanged: same names, types, shapes, attributes, and the same
+    bytes for EVERY record index (also beyond numrecs) -/
+theorem absFile_shift (h : Hdr) (rs : Nat) (pre gap rest : Bytes) (hb : ∀ v ∈ h.vars, pre.length ≤ v.begin) :
+    absFile (shiftBegins gap.length h) rs (pre ++ gap ++ rest) = absFile h rs (pre ++ rest) := by
+  unfold absFile shiftBegins
+  simp only [List.map_map]
+  congr 1
+  apply List.map_congr_left
+  intro v hv
+  simp only [Function.comp]
+  congr 1
+  funext r
+  exact rdAt_shift' pre gap rest v.begin _ _ (hb v hv)
+
 end PnVerif.Tools
